@@ -228,3 +228,12 @@ package sbom
 //@   props C11
 //@   requires boundaries != nil && connectedNodes != nil
 //@   assigns connectedNodes.*, (*connectedNodes)[*]
+
+// ---------------------------------------------------------------------------
+// C01: mutually inverse enum tables (SPDX 2.3)
+// ---------------------------------------------------------------------------
+
+//@ table edgeTypeSPDX2RoundTrip [C01]: forall t Edge_Type :: 1 <= t && t <= 44 ==> EdgeTypeFromSPDX2(Edge_Type.ToSPDX2(t)) == t
+//@ table hashAlgoSPDXNamed [C01]: forall h HashAlgorithm :: 1 <= h && h <= 17 && h != 13 ==> HashAlgorithm.ToSPDX(h) != ""
+//@ table hashAlgoSPDXRoundTrip [C01]: forall h HashAlgorithm :: 1 <= h && h <= 17 && HashAlgorithm.ToSPDX(h) != "" ==> HashAlgorithmFromSPDX(HashAlgorithm.ToSPDX(h)) == h
+//@ table identifierSPDXType [C01]: forall i SoftwareIdentifierType :: 1 <= i && i <= 4 ==> SoftwareIdentifierTypeFromSPDXExtRefType(SoftwareIdentifierType.ToSPDX2Type(i)) == i
